@@ -40,6 +40,7 @@ Same4(A, B)     == A.comps = B.comps /\ A.par = B.par /\ A.pconf = B.pconf /\ A.
 SameState(A, B) == Same4(A, B) /\ A.anom = B.anom
 NameAnoms(S)    == {i \in DOMAIN S.anom : S.anom[i][1] = "name"}
 AuxAnoms(S)     == {i \in DOMAIN S.anom : S.anom[i][1] # "name"}
+ParentAnoms(S)  == {i \in DOMAIN S.anom : S.anom[i][1] = "pnames"}
 PreOK(S)        == WellFormed(S) /\ NameAnoms(S) = {}
 
 \* a clause: name, applicable?, holds?   (cond is only evaluated when applicable)
@@ -53,7 +54,10 @@ WFClauses(app, post) ==
      Cl("C14.WF.LoadLeaf",           app, WFLoadLeaf(post)),
      Cl("C14.WF.OnlyMuxMultiParent", app, WFOnlyMuxMultiParent(post)),
      Cl("C14.WF.OneMux",             app, WFOneMux(post)),
-     Cl("C14.WF.LinkAcceptable",     app, WFLinkAcceptable(post) /\ WFAcyclic(post)) >>
+     Cl("C14.WF.LinkAcceptable",     app, WFLinkAcceptable(post) /\ WFAcyclic(post)),
+     \* the ordered parent references (from which the library derives every component's parents) name exactly
+     \* the components the graph links it to: a reference to a name that does not exist is a link add_comp refuses
+     Cl("C14.WF.ParentRefs",         app, ParentAnoms(post) = {}) >>
 
 \* (operator parameters are evaluated once by TLC, LET definitions at every reference)
 EditClauses3(pre, ev, post, exc, preok, mod, acc) ==
@@ -91,7 +95,7 @@ ClausesOf(pre, ev, post) ==
 AllClauseNames ==
   {"C14.WF.NameRegistry", "C14.WF.UniqueRails", "C14.WF.NamesRailsDisjoint",
    "C14.WF.RootsAreSources", "C14.WF.LoadLeaf", "C14.WF.OnlyMuxMultiParent", "C14.WF.OneMux",
-   "C14.WF.LinkAcceptable", "C15.Unchanged.State", "C15.Unchanged.Reports", "C16.Structure",
+   "C14.WF.LinkAcceptable", "C14.WF.ParentRefs", "C15.Unchanged.State", "C15.Unchanged.Reports", "C16.Structure",
    "C16.NoAuxAnomaly", "C17.StateUnchanged", "C17.DeepUnchanged", "C17.ArgsUnchanged", "note.UnexpectedAccept", "note.OverStrict",
    "note.Unmodelled", "events", "rejected", "accepted"}
 
